@@ -157,13 +157,16 @@ inline int run(int argc, char** argv, ScenFn fn) {
     Args args; for (int i = 1; i + 1 < argc; i += 2) if (!strncmp(argv[i], "--", 2)) args.m[argv[i] + 2] = argv[i + 1];
     std::string in = args.get("in"), outp = args.get("out"); uint64_t seed = (uint64_t)args.num("seed", 1);
     long batch = args.num("batch", 200); long sid_base = args.num("sid-base", 0); long per_scen_timeout = args.num("scen-timeout", 30);
+    // a run that has already produced this many crashed / hung scenarios stops: every one of them is a candidate the check will
+    // confirm alone, and a library that hangs on thousands of scenarios must not turn a violation into a time-out of the check
+    long max_crashes = args.num("max-crashes", 30);
     std::vector<std::string> lines; { std::ifstream f(in.c_str()); std::string l; while (std::getline(f, l)) if (!l.empty()) lines.push_back(l); }
     { FILE* t = fopen(outp.c_str(), "w"); if (!t) { perror("out"); return 3; } fclose(t); }
     FILE* crashes = fopen((outp + ".crashes").c_str(), "w");
     volatile long* progress = (volatile long*)mmap(0, 4096, PROT_READ | PROT_WRITE, MAP_SHARED | MAP_ANONYMOUS, -1, 0);
     long i = 0, total_exec = 0, total_ev = 0, ncrash = 0;
     std::string errfile = outp + ".stderr";
-    while (i < (long)lines.size()) {
+    while (i < (long)lines.size() && ncrash < max_crashes) {
         long hi = std::min<long>(i + batch, (long)lines.size());
         progress[0] = i; progress[1] = 0; progress[2] = 0;
         fflush(0);
